@@ -13,7 +13,7 @@ import sys
 import time
 import traceback
 
-from . import AnalysisError
+from . import AnalysisError, StructuralViolation
 from .core import Ctx, Report, apply_known, write_evidence, write_replay
 
 ALL = ["C%02d" % i for i in range(1, 21)]
@@ -25,10 +25,16 @@ def run_property(pid: str, repo: str, tier: str = "quick", ctx: Ctx = None):
     if ctx is None:
         ctx = Ctx(repo)
     rep = Report(pid, tier)
-    mod.check(ctx, rep)
-    if tier == "thorough" and hasattr(mod, "check_thorough"):
-        mod.check_thorough(ctx, rep)
-    rep.enforce_floors()
+    try:
+        mod.check(ctx, rep)
+        if tier == "thorough" and hasattr(mod, "check_thorough"):
+            mod.check_thorough(ctx, rep)
+        rep.enforce_floors()
+    except StructuralViolation as e:
+        if pid not in e.pids:
+            raise
+        rep.rule("%s.R0" % pid, e.rule_text, 1)
+        rep.violation("%s.R0" % pid, e.key, e.where, e.msg)
     return rep, ctx, mod
 
 
